@@ -88,6 +88,8 @@ def make_workload(rng, n_threads, max_tests, runlevel=True):
                 test["tags_in"] = [[], ["h"]]        # the test removes a run-level tag
             elif r < 0.7:
                 test["tags_in"] = [["g%d" % t], ["l0"]]  # the test sets a tag the run level may have
+            elif r < 0.78:
+                test["tags_in"] = [[""], []]             # a tag that is the empty string is a tag
             if rng.random() < 0.25:
                 test["tags_after"] = [["z%d" % uid], []]
             if rng.random() < 0.3:
